@@ -262,6 +262,117 @@ def hmac_key_rules(chk):
     chk.floor('HMAC key cases', n, 6)
 
 
+def md_padding(chk):
+    """Merkle-Damgard strengthening (RFC 1321 3.1-3.2, FIPS 180-4 5.1): after the message bytes come 0x80, zeros up to the length
+    field, and the message length in bits -- 64-bit little-endian for MD5, 64-bit big-endian for SHA-1/224/256, 128-bit big-endian for
+    SHA-384/512; one extra block when fewer than 1 + field bytes remain.  Decided by partial evaluation of the out() functions with
+    the byte count pinned (small, just below / at / above the two-block threshold): the straight-line result is interpreted over a
+    byte image of the local block buffer, and the image handed to each compression call is compared with the reference."""
+    from .. import oblig
+    R = 'md-padding'
+    CASES = [
+        ('src/hash/md5.c', 'br_md5_out', 'br_md5_context', 64, 8, ['le'], ['br_md5_round']),
+        ('src/hash/sha1.c', 'br_sha1_out', 'br_sha1_context', 64, 8, ['be'], ['br_sha1_round']),
+        ('src/hash/sha2small.c', 'sha2small_out', 'br_sha224_context', 64, 8, ['be'], ['br_sha2small_round']),
+        ('src/hash/sha2big.c', 'sha2big_out', 'br_sha384_context', 128, 16, ['be'], ['sha2big_round']),
+        ('src/hash/md5sha1.c', 'br_md5sha1_out', 'br_md5sha1_context', 64, 8, ['le', 'be'], ['br_md5_round', 'br_sha1_round']),
+    ]
+    n = 0
+    for src, fn, st, B, LF, ends, rounds in CASES:
+        U = oblig.funit(src)
+        if fn not in U.funcs:
+            raise AnalysisBroken('%s vanished from %s' % (fn, src))
+        L = irf.Layouts(U.unit)
+        o_cnt = L.field(st, 'count')[0]
+        loads = U.field_loads(fn, 0, o_cnt)
+        if not loads:
+            raise AnalysisBroken('%s: no load of count' % fn)
+        for cnt in (3, B - LF - 1, B - LF, B - 1, 3 * B + 5):
+            hy = [dict(kind='pin', n=x['n'], value=cnt) for x in loads]
+            Fo = U.optimise(fn, hy, tuple(rounds))
+            reach = Fo.reachable()
+            blocks = [b for b in Fo.blocks if b['id'] in reach]
+            inst = '%s: padding of a %d-byte message (%d bytes in the last block)' % (fn, cnt, cnt % B)
+            if len(blocks) != 1:
+                continue        # not reduced to straight-line code: not judged
+            bufs = [i for i in Fo.insts.values() if i['op'] == 'alloca' and i.get('size') == B]
+            if len(bufs) != 1:
+                continue
+            bid = bufs[0]['id']
+            img = ['?'] * B
+            snaps = []
+
+            def put(off, ln, val):
+                for k in range(ln):
+                    if 0 <= off + k < B:
+                        img[off + k] = val(k) if callable(val) else val
+            for i in blocks[0]['insts']:
+                if i['op'] == 'store':
+                    b, o = Fo.addr_of(i['ops'][1])
+                    if b == {'k': 'i', 'v': bid} and o is not None:
+                        v, sz = i['ops'][0], i.get('size', 1)
+                        if v['k'] == 'c' and v['v'] is not None:
+                            put(o, sz, lambda k, vv=v['v']: (vv >> (8 * k)) & 0xFF)
+                        elif v['k'] == 'i' and Fo.insts[v['v']]['op'] == 'call' and (Fo.insts[v['v']].get('callee') or '').startswith('llvm.bswap') \
+                                and Fo.insts[v['v']]['ops'][0]['k'] == 'c':
+                            vv = Fo.insts[v['v']]['ops'][0]['v']
+                            put(o, sz, lambda k, vv=vv, sz=sz: (vv >> (8 * (sz - 1 - k))) & 0xFF)
+                        else:
+                            put(o, sz, '?')
+                elif i['op'] == 'call':
+                    cal = i.get('callee') or ''
+                    if cal.startswith('llvm.memset'):
+                        b, o = Fo.addr_of(i['ops'][0])
+                        if b == {'k': 'i', 'v': bid} and o is not None and i['ops'][2]['k'] == 'c' and i['ops'][1]['k'] == 'c':
+                            put(o, i['ops'][2]['v'], i['ops'][1]['v'] & 0xFF)
+                    elif cal.startswith('llvm.memcpy') or cal.startswith('llvm.memmove'):
+                        b, o = Fo.addr_of(i['ops'][0])
+                        if b == {'k': 'i', 'v': bid} and o is not None and i['ops'][2]['k'] == 'c':
+                            sb, so = Fo.addr_of(i['ops'][1])
+                            put(o, i['ops'][2]['v'], 'M' if sb == {'k': 'a', 'v': 0} else '?')
+                    elif cal in rounds:
+                        snaps.append((cal, list(img)))
+                    elif cal in ('br_enc64be', 'br_enc64le', 'br_enc32be', 'br_enc32le'):
+                        b, o = Fo.addr_of(i['ops'][0])
+                        if b == {'k': 'i', 'v': bid} and o is not None and i['ops'][1]['k'] == 'c':
+                            sz = 8 if '64' in cal else 4
+                            vv = i['ops'][1]['v']
+                            if cal.endswith('be'):
+                                put(o, sz, lambda k, vv=vv, sz=sz: (vv >> (8 * (sz - 1 - k))) & 0xFF)
+                            else:
+                                put(o, sz, lambda k, vv=vv: (vv >> (8 * k)) & 0xFF)
+            # reference images
+            ptr = cnt % B
+            bits = cnt * 8
+            refs = []
+            for ri, rname in enumerate(rounds):
+                end = ends[ri] if len(ends) > 1 else ends[0]
+                lf = [(bits >> (8 * (LF - 1 - k))) & 0xFF for k in range(LF)] if end == 'be' else \
+                     [(bits >> (8 * k)) & 0xFF for k in range(8)] + [0] * (LF - 8)
+                b1 = ['M'] * ptr + [0x80]
+                if ptr + 1 > B - LF:
+                    b1 = b1 + [0] * (B - len(b1))
+                    refs.append((rname, 0, b1))
+                    refs.append((rname, 1, [0] * (B - LF) + lf))
+                else:
+                    b1 = b1 + [0] * (B - LF - len(b1)) + lf
+                    refs.append((rname, 0, b1))
+            want = sorted(refs, key=lambda r: (r[1], rounds.index(r[0])))
+            want = [(r[0], r[2]) for r in want]
+            n += 1
+            if snaps == want:
+                chk.ok(R, inst, src, '%d compression call(s) see the reference block image' % len(snaps))
+            else:
+                k = next((j for j in range(min(len(snaps), len(want))) if snaps[j] != want[j]), None)
+                det = '%d compression calls, reference has %d' % (len(snaps), len(want))
+                if k is not None:
+                    pos = next((q for q in range(B) if snaps[k][1][q] != want[k][1][q]), None)
+                    det = 'block #%d handed to %s differs from the reference at byte %s: %s vs %s' % (k, snaps[k][0], pos,
+                          snaps[k][1][pos] if pos is not None else snaps[k][0], want[k][1][pos] if pos is not None else want[k][0])
+                chk.violation(R, inst, src, det, key='%s %s %d' % (R, fn, cnt))
+    chk.floor('padding cases evaluated', n, 20)
+
+
 def run(tier):
     chk = report.Check('C13', tier,
                        'Constant tables and class descriptors of the hash functions compared with values generated from the standards '
@@ -403,5 +514,6 @@ def run(tier):
     tls10_prf_shape(chk)
     hmac_ct_window(chk)
     hmac_key_rules(chk)
+    md_padding(chk)
     chk.floor('tables', sum(1 for o in chk.obls if o['rule'] == 'hash-constants'), 15)
     return chk.finish()
